@@ -16,7 +16,7 @@ IGNORED_CLASSES = {'ConditionLine', 'DefineSymbolLine', 'CreateMemzoneLine', 'Re
 
 
 def layout_config(endian='big', address_bits=16, origin=None, page_size=None, zones=None, global_zone=None,
-                  data_blocks=(), consts=None, symbols=None):
+                  data_blocks=(), consts=None, symbols=None, global_position=0):
     g = {}
     if origin is not None:
         g['origin'] = origin
@@ -33,10 +33,11 @@ def layout_config(endian='big', address_bits=16, origin=None, page_size=None, zo
     # a macro whose steps are not whole bytes: two 4-bit instructions, each padded to its own byte
     cfg['macros'] = {'nn2': [{'instructions': ['nib', 'nib']}]}
     mz = []
-    if global_zone is not None:
-        mz.append({'name': 'GLOBAL', 'start': global_zone[0], 'end': global_zone[1]})
     for n, (s, e) in (zones or {}).items():
         mz.append({'name': n, 'start': s, 'end': e})
+    if global_zone is not None:
+        # the position of the GLOBAL entry in the list carries no meaning
+        mz.insert(min(global_position, len(mz)), {'name': 'GLOBAL', 'start': global_zone[0], 'end': global_zone[1]})
     if mz:
         cfg.setdefault('predefined', {})['memory_zones'] = mz
     if data_blocks:
